@@ -88,7 +88,7 @@ def gen_program(g, prof):
                 name = new("g")
                 st["names"].append(name)
                 st["groups"].append(name)
-                out.append(["group", name, block(depth + 1, own_scopes, in_child, tuple(enc) + (name,))])
+                out.append(["group", name, block(depth + 1, own_scopes + [name], in_child, tuple(enc) + (name,))])
             elif k == "spawn":
                 cname = new("c")
                 st["names"].append(cname)
@@ -153,6 +153,41 @@ def gen_program(g, prof):
                 ["catch", "cancel", [["yield", g.int(1, 4)]], [["yield", g.int(0, 1)]], g.chance(30), "swallow"],
                 g.choice([["forever"], ["wait", "e0"], ["yield", 2], ["sleep", 5]]),
                 ["yield", 1]]]]]] + main
+        elif which == "cleanup_failure_under_outer_cancel":
+            # an enclosing scope (or an outer group that is shutting down) is cancelled; a child raises from its
+            # cleanup while being cancelled by it; the host sits behind a shield and then leaves the body quietly
+            a, gg, c1, sh = new("s"), new("g"), new("c"), new("s")
+            st["names"] += [a, gg, c1, sh]
+            st["groups"].append(gg)
+            st["children"].append(c1)
+            child = [["catch", "cancel", [["forever"]], [["yield", g.int(0, 2)]], g.bool(), "boom"]]
+            body = [["spawn", gg, c1, g.choice(["soon", "create"]), child],
+                    ["scope", sh, True, None, [["yield", g.int(3, 8)]]]]
+            if g.bool():
+                body.append(["yield", g.int(1, 2)])
+            inner = [["group", gg, body]]
+            if g.chance(40):
+                # outer group whose other child fails instead of a plain cancelled scope
+                go, c2 = new("g"), new("c")
+                st["names"] += [go, c2]
+                st["groups"].append(go)
+                st["children"].append(c2)
+                main = [["group", go, [["spawn", go, c2, "soon", [["yield", g.int(1, 3)], ["raise", 77]]]] + inner]] + main
+            else:
+                ext += [[g.int(2, 5), "cancel", a]]
+                main = [["scope", a, False, None, inner]] + main
+        elif which == "shielded_group_failure":
+            # the group's own scope is shielded, an enclosing scope is cancelled, a child fails while others are parked
+            a, gg, c1, c2 = new("s"), new("g"), new("c"), new("c")
+            st["names"] += [a, gg, c1, c2]
+            st["groups"].append(gg)
+            st["children"] += [c1, c2]
+            ext += [[g.int(1, 3), "cancel", a]]
+            main = [["scope", a, False, None, [["group", gg, [
+                ["shield", gg, True],
+                ["spawn", gg, c1, "soon", [["yield", g.int(3, 7)], ["raise", 78]]],
+                ["spawn", gg, c2, "soon", [g.choice([["forever"], ["wait", "e0"]])]],
+                g.choice([["forever"], ["yield", 12], ["wait", "e1"]])]]]]] + main
         elif which == "native_in_cancelled_scope":
             # a child sits behind a shield inside a scope that gets cancelled; then it is cancelled natively:
             # the native CancelledError must travel through the cancelled scope untouched
